@@ -218,6 +218,12 @@ def make_cases(ctx):
             yield "psk-%s-hrr-%d" % (h, cert), dict(
                 kind="pskpair", hash=h, cert=cert, hrr=True,
                 cm=["psk_dhe_ke", "psk_ke"], sm=["psk_dhe_ke", "psk_ke"])
+    for kx, groups in (("dh_anon", ["ffdhe2048", "ffdhe3072", "ffdhe4096"]),
+                       ("ecdh_anon", ["secp256r1", "secp384r1", "x25519"])):
+        for g in groups:
+            for side in ("client", "server", "both"):
+                yield "anon-%s-%s-%s" % (kx, g, side), dict(
+                    kind="anonpair", kx=kx, group=g, side=side)
     # the fallback signal with every pair of maximum versions: refused
     # exactly when the server could have done better
     for cmax in pair.VERSIONS:
@@ -820,6 +826,64 @@ def run_pskpair(ctx, cid, P):
             P["hash"], suites.TABLE[p.c.session.cipherSuite].name))
 
 
+def run_anonpair(ctx, cid, P):
+    """the anonymous entry points (handshakeClientAnonymous /
+    handshakeServer(anon=True)) honour the group settings like the others:
+    a group only one side would have to guess is never needed"""
+    kx, g, side = P["kx"], P["group"], P["side"]
+    fam = "dhGroups" if kx == "dh_anon" else "eccCurves"
+    base = dict(minVersion=(3, 1), maxVersion=(3, 3), keyExchangeNames=[kx])
+    cd, sd = dict(base), dict(base)
+    one = {fam: [g]}
+    if fam == "dhGroups":
+        bits = int(g[5:])
+        if side in ("client", "both"):
+            cd["minKeySize"] = bits - 8     # smaller groups are refused
+    else:
+        one["defaultCurve"] = g
+    if side in ("client", "both"):
+        cd.update(one)
+    if side in ("server", "both"):
+        sd.update(one)
+    for d in (cd, sd):
+        d["keyShares"] = []
+    cs, ss = policy.build(cd), policy.build(sd)
+    try:
+        cs.validate()
+        ss.validate()
+    except ValueError as e:
+        ctx.ev()
+        ctx.violation({"clause": "in_domain_rejected", "dim": "anon:" + fam,
+                       "window": "None"}, {"case": cid, "error": repr(e)},
+                      "validate() refuses %r / %r: %r" % (cd, sd, e))
+        return
+    p = Pair()
+    tc, ts = p.handshake(Flavor("anon", skey=None, cset=cs, sset=ss))
+    ctx.ev()
+    ctx.count("pairs")
+    ctx.count("anon_pairs")
+    W = {"case": cid, "client": cd, "server": sd,
+         "outcome": [outcome(tc), outcome(ts)]}
+    if tc.status != "done" or ts.status != "done":
+        e = ts.exc if ts.exc is not None else tc.exc
+        ctx.violation({"clause": "compatible_but_failed", "mech": "anon",
+                       "ver": "TLS1.2", "keytype": "anon/" + kx,
+                       "server": str(outcome(ts)),
+                       "client": str(outcome(tc)), "msg": str(e)[:60]}, W,
+                      "both anonymous endpoints allow %s: %r / %r" % (
+                          g, tc.exc, ts.exc))
+        return
+    ctx.count("compatible_connected")
+    if fam == "dhGroups" and p.c.dhGroupSize != bits:
+        ctx.violation({"clause": "negotiated_outside_settings",
+                       "mech": "anon", "dim": "dhGroups"},
+                      dict(W, got=p.c.dhGroupSize),
+                      "anonymous DH settled on %r bits although %s was the "
+                      "only group allowed by the %s" % (p.c.dhGroupSize, g,
+                                                        side))
+    ctx.cell("negotiated", "TLS1.2|anon|%s|%s" % (kx, g))
+
+
 def run_pfpair(ctx, cid, P):
     kw = dict(minVersion=(3, 1), maxVersion=(3, 3),
               keyExchangeNames=["ecdhe_rsa"], eccCurves=[P["curve"]],
@@ -853,6 +917,8 @@ def run_pfpair(ctx, cid, P):
 
 def run_pair(ctx, cid, P):
     rng = ctx.rng
+    if P["kind"] == "anonpair":
+        return run_anonpair(ctx, cid, P)
     if P["kind"] == "pfpair":
         return run_pfpair(ctx, cid, P)
     if P["kind"] == "pskpair":
